@@ -249,29 +249,26 @@ Section Fuel.
     - destruct s; [cbn; lia|cbn in Hs; lia].
     - destruct s as [|c r]; [cbn; lia|].
       cbn in Hs. rewrite next_S.
-      destruct (c =? 123).
+      destruct (c =? 123) eqn:E1.
       { destruct (consume 123 r) as [r2|] eqn:Ec.
         - apply consume_length in Ec. cbn; lia.
         - destruct (argument_close_ok _ d IH r) as (p & r' & E & L); [lia|].
           rewrite E. cbn; lia. }
-      destruct (c =? 125).
+      destruct (c =? 125) eqn:E2.
       { destruct (consume 125 r) as [r2|] eqn:Ec; [apply consume_length in Ec|]; cbn; lia. }
-      destruct (c =? 40).
+      destruct (c =? 40) eqn:E3.
       { destruct (consume 40 r) as [r2|] eqn:Ec; [apply consume_length in Ec|]; cbn; lia. }
-      destruct (c =? 41).
+      destruct (c =? 41) eqn:E4.
       { destruct (consume 41 r) as [r2|] eqn:Ec; [apply consume_length in Ec|]; cbn; lia. }
-      destruct (c =? 92).
+      destruct (c =? 92) eqn:E5.
       { destruct r as [|c2 r2]; [cbn; lia|]. destruct (is_special c2); cbn; lia. }
       destruct (text_run (c :: r)) as [t r'] eqn:Et.
-      unfold text_run in Et. cbn in Et.
-      destruct (negb (is_special c)) eqn:Es.
-      + destruct (span _ r) as [a b] eqn:E. apply span_length in E.
-        inversion Et; subst. cbn; lia.
-      + (* c is special: contradiction with the tests above *)
-        exfalso. apply negb_false_iff in Es. unfold is_special in Es.
-        repeat match goal with
-               | H : context [?x =? ?y] |- _ => destruct (x =? y) eqn:?; try discriminate
-               end.
+      unfold text_run in Et. cbn [span] in Et.
+      assert (Es : is_special c = false).
+      { unfold is_special. rewrite E1, E2, E3, E4, E5. reflexivity. }
+      rewrite Es in Et. cbn [negb] in Et.
+      destruct (span _ r) as [a b] eqn:E. apply span_length in E.
+      inversion Et; subst. cbn; lia.
   Qed.
 
   Lemma top_loop_ok :
@@ -356,7 +353,7 @@ Section NoPanic.
   Proof.
     intros args prm. unfold compile_date.
     destruct (Nat.ltb 2 (length args)); [reflexivity|].
-    set (fmt := match args with a :: _ => date_format_of a | [] => _ end).
+    set (fmt := match args with a :: _ => date_format_of a | [] => LIT "%+" end).
     destruct (strftime_ok fmt) eqn:E; cbn [negb]; [|reflexivity].
     destruct (nth_error args 1) as [[|[z| |] r]|]; try reflexivity; cbn; try exact E.
     destruct (str_eqb z _); [exact E|]. destruct (str_eqb z _); [exact E|reflexivity].
@@ -443,7 +440,7 @@ Section NoPanic.
   Proof.
     induction c as [t|k p|m| |g cs p IH] using chunk_ind'; intros Hs; cbn [enc_chunk].
     - apply no_boom_chars.
-    - apply no_boom_apply_params. destruct k; cbn; try apply no_boom_chars.
+    - apply no_boom_apply_params. destruct k; cbn [enc_leaf]; try apply no_boom_chars.
       cbn in Hs. rewrite Hs. apply no_boom_chars.
     - apply no_boom_chars.
     - discriminate.
